@@ -29,6 +29,7 @@ const (
 // Task is a goroutine known to the scheduler. Its identity travels in the
 // context.Context every engine call receives.
 type Task struct {
+	adhoc    bool // made on the fly for one store write / publication (see snapshotParked)
 	ID       int
 	Name     string
 	Gen      *Generation
@@ -193,7 +194,7 @@ func (s *Sched) spawn(base context.Context, gen *Generation, name string, fn fun
 func (s *Sched) adhocTask(gen *Generation, name string) *Task {
 	s.mu.Lock()
 	defer s.mu.Unlock()
-	t := &Task{ID: s.nextID, Name: name, Gen: gen, wake: make(chan struct{}), sched: s}
+	t := &Task{ID: s.nextID, Name: name, Gen: gen, wake: make(chan struct{}), sched: s, adhoc: true}
 	s.nextID++
 	s.tasks = append(s.tasks, t)
 	return t
@@ -204,7 +205,26 @@ func (s *Sched) snapshotParked() []*Task {
 	s.mu.Lock()
 	ps := append([]*Task(nil), s.parked...)
 	s.mu.Unlock()
-	sort.Slice(ps, func(i, j int) bool { return ps[i].ID < ps[j].ID })
+	// Tasks the scheduler spawned itself come first, in spawn order. Tasks made on the fly for a
+	// store write or a publication come after them, ordered by their (deterministic) names and not
+	// by creation: two of them may be created by goroutines running at the same time -- e.g. two
+	// ledgers' timers firing during one clock advance -- and then their ids depend on the race.
+	sort.Slice(ps, func(i, j int) bool {
+		a, b := ps[i], ps[j]
+		if a.adhoc != b.adhoc {
+			return !a.adhoc
+		}
+		if !a.adhoc {
+			return a.ID < b.ID
+		}
+		if len(a.Name) != len(b.Name) {
+			return len(a.Name) < len(b.Name)
+		}
+		if a.Name != b.Name {
+			return a.Name < b.Name
+		}
+		return a.ID < b.ID
+	})
 	return ps
 }
 
